@@ -26,6 +26,7 @@ META = {
                        "trusted); 'the parsed view is the same for every encoding' holds by type (the decoder's input is a Value)",
     "trusted_base": ["ciborium Value::Bytes holds the bstr content", "derive(Clone) clones field-wise"],
 }
+META["decides"] += ' (As built: R-1 also accepts any other construction from a given Header that stores original_data = None; R-5 is decided in every public function with all crate-local callees expanded in place.)'
 
 PH = "header::ProtectedHeader"
 WIRE_CTOR = "header::ProtectedHeader::from_cbor_bstr_depth"
